@@ -45,12 +45,48 @@ class RGen(minif.BodyGen):
             self.arrays1 = saved
         return [f"{ind}{x}({sub}) = {rhs}", f"{ind}{y}({sub}) = {y}({sub}) + {x}({sub})"]
 
+    module = False
+
+    def lvalue(self):
+        """a variable or array element that may be bound to an intent(out/inout) dummy"""
+        r = self.rng
+        sc = [x for x in self.scalars if "%" not in x] or ["s0"]
+        if r.random() < 0.5:
+            return r.choice(sc)
+        return f"{r.choice([x for x in self.arrays1 if '%' not in x] or ['a'])}({r.randint(0, 5)})"
+
+    def lib_call(self, live, ind):
+        """call of a subroutine of the enclosing module: positional prefix, then keyword actuals in
+        a random order; the optional dummy of `upd` is mostly skipped"""
+        r = self.rng
+        name, dummies = r.choice(LIB_SIGS)
+        chosen = [(d, i) for d, i in dummies if d != "scale" or r.random() < 0.3]
+        actual = {}
+        for d, intent in chosen:
+            actual[d] = self.lvalue() if intent != "in" or r.random() < 0.5 else self.expr(live, 1)
+        npos = r.randint(0, len(chosen))
+        # positional actuals must be a prefix of the dummy list (no skipped dummy before them)
+        full = [d for d, _ in dummies]
+        while npos and [d for d, _ in chosen[:npos]] != full[:npos]:
+            npos -= 1
+        rest = chosen[npos:]
+        r.shuffle(rest)
+        args = [actual[d] for d, _ in chosen[:npos]] + [f"{d}={actual[d]}" for d, _ in rest]
+        return [f"{ind}call {name}({', '.join(args)})"]
+
     def call_stmt(self, live, ind):
         r = self.rng
         a = r.choice([x for x in self.arrays1 if "%" not in x] or ["a"])
         s = r.choice([x for x in self.scalars if "%" not in x] or ["s0"])
         b = r.choice(self.arrays1)
-        return [f"{ind}call bump({a}, {s}, {b}({r.randint(0, 5)}))"]
+        out = []
+        if r.random() < 0.35:        # WRITE-first access followed by the READWRITE access of a call
+            out.append(f"{ind}{a}({r.randint(0, 5)}) = {self.expr(live, 1)}")
+        if self.module and r.random() < 0.7:
+            if out and r.random() < 0.7:
+                return out + [f"{ind}call imp({a}({r.randint(0, 5)}), {s})"]
+            return out + self.lib_call(live, ind)
+        return out + [f"{ind}call bump({a}, {s}, {b}({r.randint(0, 5)}))"]
 
     def assign(self, live, ind="  "):
         r = self.rng
@@ -138,6 +174,37 @@ BUMP = """subroutine bump(x, y, z)
 end subroutine bump
 """
 
+LIB = """  pure subroutine scale_add(src, factor, dst)
+    integer, intent(in) :: src, factor
+    integer, intent(out) :: dst
+    dst = src * factor + 1
+  end subroutine scale_add
+  pure subroutine upd(tot, inc, scale, res)
+    integer, intent(inout) :: tot
+    integer, intent(in) :: inc
+    integer, intent(in), optional :: scale
+    integer, intent(out) :: res
+    res = tot + inc
+    tot = tot + 1
+  end subroutine upd
+  pure subroutine shift3(x, y, z)
+    integer, intent(in) :: x
+    integer, intent(inout) :: y
+    integer, intent(out) :: z
+    z = y - x
+    y = x + 2
+  end subroutine shift3
+  subroutine imp(u, v)
+    integer :: u, v
+    u = u + v
+    v = 2
+  end subroutine imp
+"""
+LIB_SIGS = [("scale_add", [("src", "in"), ("factor", "in"), ("dst", "out")]),
+            ("upd", [("tot", "inout"), ("inc", "in"), ("scale", "in"), ("res", "out")]),
+            ("shift3", [("x", "in"), ("y", "inout"), ("z", "out")]),
+            ("imp", [("u", "inout"), ("v", "inout")])]
+
 STRUCT_DECL = ["  type :: grid_t", f"    integer, dimension({minif.A_LO}:{minif.A_HI}) :: d",
                f"    integer, dimension({minif.A_LO}:{minif.A_HI}) :: e", "    integer :: n", "  end type grid_t"]
 
@@ -147,6 +214,7 @@ class RProg(minif.Prog):
     external subroutine `bump` (unknown intent: every argument is in+out for PSyclone)"""
     struct = False
     calls = False
+    module = False
 
     def decls(self):
         out = list(STRUCT_DECL) if self.struct else []
@@ -162,7 +230,7 @@ class RProg(minif.Prog):
         return out
 
 
-def gen_program(rng, nstmts, codeblocks=False, struct=False, calls=False):
+def gen_program(rng, nstmts, codeblocks=False, struct=False, calls=False, module=False):
     scalars = ["s0", "s1", "t"][: rng.randint(1, 3)]
     arrays1 = ["a", "b", "c"][: rng.randint(2, 3)]
     arrays2 = ["m"] if rng.random() < 0.3 else []
@@ -172,14 +240,60 @@ def gen_program(rng, nstmts, codeblocks=False, struct=False, calls=False):
     loopvars = ["i", "j", "k"]
     init = minif.gen_init(rng, scalars, arrays1, arrays2) + ["  w = 0"]
     bg = RGen(rng, scalars, arrays1, arrays2, loopvars)
-    bg.codeblocks, bg.calls = codeblocks, calls
+    bg.codeblocks, bg.calls, bg.module = codeblocks, calls or module, module
     body = bg.block([], nstmts)
     prog = RProg(scalars, arrays1, arrays2, loopvars + ["ii", "jj", "w"], init, body)
-    prog.struct, prog.calls = struct, calls
+    prog.struct, prog.calls, prog.module = struct, calls or module, module
     return prog
 
 
+def call_matrix():
+    """SYSTEMATIC family: for every subroutine of the module library, every way of writing the
+    actual arguments — positional prefix of every length, the remaining actuals as keywords in
+    every order, the optional dummy present or skipped — one routine `x = ..; call ..; y = ..`
+    whose actuals are distinct variables / array elements.  -> [(source, n_init)]"""
+    import itertools
+    out = []
+    pool = ["s0", "a(2)", "s1", "b(3)"]
+    for name, dummies in LIB_SIGS:
+        variants = [dummies]
+        if any(d == "scale" for d, _ in dummies):
+            variants.append([(d, i) for d, i in dummies if d != "scale"])
+        full = [d for d, _ in dummies]
+        for chosen in variants:
+            actual = {d: pool[k] for k, (d, _) in enumerate(chosen)}
+            for npos in range(len(chosen) + 1):
+                if [d for d, _ in chosen[:npos]] != full[:npos]:
+                    continue
+                for rest in itertools.permutations(chosen[npos:]):
+                    if npos == len(chosen) - 1 and len(chosen) == len(dummies) and npos:
+                        pass
+                    args = [actual[d] for d, _ in chosen[:npos]] + [f"{d}={actual[d]}" for d, _ in rest]
+                    body = ["  t = t + s0", f"  call {name}({', '.join(args)})", "  t = t + a(2)"]
+                    scalars, arrays1 = ["s0", "s1", "t"], ["a", "b"]
+                    init = ["  s0 = 2", "  s1 = 5", "  t = 1",
+                            f"  do ii = {minif.A_LO}, {minif.A_HI}", "    a(ii) = mod(ii * 3 + 1, 7)", "  enddo",
+                            f"  do ii = {minif.A_LO}, {minif.A_HI}", "    b(ii) = mod(ii * 5 + 2, 11) - 1", "  enddo",
+                            "  w = 0"]
+                    prog = RProg(scalars, arrays1, [], ["i", "j", "k", "ii", "jj", "w"], init, body)
+                    prog.module = prog.calls = True
+                    out.append((source_of(prog), n_init_nodes(prog)))
+    seen, uniq = set(), []
+    for src, n in out:
+        if src not in seen:
+            seen.add(src)
+            uniq.append((src, n))
+    return uniq
+
+
 def source_of(prog, body=None):
+    if getattr(prog, "module", False):
+        # the routine `p` and the subroutines it calls live in ONE module (same Container)
+        lines = ["module m", "  implicit none", "contains", LIB.rstrip("\n"),
+                 "\n".join("  " + l for l in BUMP.rstrip("\n").splitlines()), "  subroutine p()"]
+        lines += ["  " + l for l in prog.decls() + prog.init + (prog.body if body is None else body)]
+        lines += ["  end subroutine p", "end module m"]
+        return "\n".join(lines) + "\n"
     lines = ["program p"] + prog.decls() + prog.init + (prog.body if body is None else body) + ["end program p"]
     return "\n".join(lines) + "\n" + (BUMP if getattr(prog, "calls", False) else "")
 
@@ -299,41 +413,127 @@ def ref_target(arg, names):
     return x, (1 if rank > 0 else 0), [], False
 
 
-def inline_bump(node, names):
-    """the callee `bump(x, y, z)`: x(1) = x(2) + y ; y = y + z ; z = 3 with the actual arguments
-    substituted (x a whole rank-1 array, y a scalar variable, z a scalar variable or an element);
-    None if the call has another shape (then the region is not executed by the model)"""
+def callee_of(call):
+    from psyclone.psyir.nodes import Routine
+    for r in call.root.walk(Routine):
+        if r.name.lower() == call.routine.name.lower():
+            return r
+    return None
+
+
+def bind_args(call, routine):
+    """[(dummy symbol, actual node)] in the order of the ACTUAL arguments; keyword actuals are
+    matched by name, positional ones by position (the harness's own matching, independent of
+    Call._pure_subroutine_modified_args)"""
+    dummies = routine.symbol_table.argument_list
+    out = []
+    for pos, (kw, arg) in enumerate(zip(call.argument_names, call.arguments)):
+        if kw:
+            d = [x for x in dummies if x.name.lower() == kw.lower()]
+            if not d:
+                return None
+            out.append((d[0], arg))
+        elif pos < len(dummies):
+            out.append((dummies[pos], arg))
+        else:
+            return None
+    return out
+
+
+def is_pure_subroutine(names, name):
+    return bool(re.search(r"^\s*pure\s+subroutine\s+" + re.escape(name) + r"\b", getattr(names, "src", ""), re.I | re.M))
+
+
+def inline_call(node, names):
+    """the callee's body with the actual arguments substituted for the dummies (callee bodies:
+    assignments over dummies and literals; a dummy array is bound to a whole array, a scalar dummy
+    to a scalar variable / array element / expression).  None if the call has another shape
+    (then the region is not executed by the model)."""
     from psyclone.psyir import nodes as N
-    if node.routine.name.lower() != "bump" or len(node.arguments) != 3:
+    routine = callee_of(node)
+    pairs = bind_args(node, routine) if routine is not None else None
+    if pairs is None:
         return None
-    if not all(isinstance(a, N.Reference) for a in node.arguments):
+    binding = {d.name.lower(): arg for d, arg in pairs}
+    dummy_names = {d.name.lower() for d in routine.symbol_table.argument_list}
+
+    def ex(e):
+        if isinstance(e, N.Literal):
+            return minif.export_expr(e, names)
+        if isinstance(e, N.BinaryOperation) and e.operator.name in minif._BIN:
+            return ["bin", minif._BIN[e.operator.name], ex(e.children[0]), ex(e.children[1])]
+        if isinstance(e, N.ArrayReference) and e.name.lower() in binding and len(e.indices) == 1:
+            act = binding[e.name.lower()]
+            if type(act) is N.Reference and getattr(names, "rank", {}).get(act.name.lower(), 0) == 1:
+                return ["idx1", names.id(act.name), ex(e.indices[0])]
+            raise minif.Unsupported("array dummy")
+        if type(e) is N.Reference and e.name.lower() in binding:
+            return rexport_expr(binding[e.name.lower()], names, False)
+        raise minif.Unsupported("callee expression")
+
+    out = []
+    try:
+        for st in routine.children:
+            if not isinstance(st, N.Assignment):
+                return None
+            lhs = st.lhs
+            if lhs.name.lower() not in binding:
+                return None            # unbound (absent optional) or local: not modelled
+            act = binding[lhs.name.lower()]
+            if isinstance(lhs, N.ArrayReference):
+                if not (type(act) is N.Reference and len(lhs.indices) == 1
+                        and getattr(names, "rank", {}).get(act.name.lower(), 0) == 1):
+                    return None
+                out.append(["store1", names.id(act.name), ex(lhs.indices[0]), ex(st.rhs)])
+            elif type(lhs) is N.Reference:
+                if not isinstance(act, N.Reference):
+                    return None
+                x, a, idx, elem = ref_target(act, names)
+                if any(isinstance(i, N.Range) for i in getattr(act, "indices", [])):
+                    return None
+                if elem or a:
+                    if len(idx) not in (1, 2) or (a and not elem):
+                        return None
+                    out.append([f"store{len(idx)}", x] + idx + [ex(st.rhs)])
+                else:
+                    out.append(["assign", x, ex(st.rhs)])
+            else:
+                return None
+    except (minif.Unsupported, KeyError):
         return None
-    (x, xa, xi, xe), (y, ya, yi, ye), (z, za, zi, ze) = [ref_target(a, names) for a in node.arguments]
-    if xe or not xa or ya or ye or any(isinstance(i, N.Range) for a in node.arguments[2:] for i in getattr(a, "indices", [])):
-        return None
-    if ze and len(zi) != 1 or (not ze and za):
-        return None
-    yexpr = ["var", y]
-    zexpr = ["idx1", z, zi[0]] if ze else ["var", z]
-    zstore = ["store1", z, zi[0], ["lit", 3]] if ze else ["assign", z, ["lit", 3]]
-    return ["seqs", ["store1", x, ["lit", 1], ["bin", "add", ["idx1", x, ["lit", 2]], yexpr]],
-            ["assign", y, ["bin", "add", yexpr, zexpr]], zstore]
+    # every dummy the body mentions must be bound
+    for r in routine.walk(N.Reference):
+        if r.name.lower() in dummy_names and r.name.lower() not in binding:
+            return None
+    return ["seqs"] + out
 
 
 def call_accesses(node, names):
-    """Call.reference_accesses of a non-pure call: every by-reference argument READWRITE, then the
-    READs of its subscripts; other arguments READ.  -> `opaque` statement (body = the callee with
-    the actuals substituted if it is the generator's `bump`, else skip)"""
+    """Call.reference_accesses at HEAD.  Non-pure call: every by-reference argument READWRITE, then
+    the READs of its subscripts; other arguments READ.  PURE subroutine defined in the same
+    container: an argument bound (by keyword, else by position) to a dummy that is not intent(in)
+    is READWRITE, the others READ.  -> `opaque` statement (body = the callee with the actuals
+    substituted if it can be inlined, else skip)"""
     from psyclone.psyir import nodes as N
+    from psyclone.psyir.symbols import ArgumentInterface
     acc = []
-    for arg in node.arguments:
+    routine = callee_of(node)
+    pure = is_pure_subroutine(names, node.routine.name)
+    pairs = bind_args(node, routine) if routine is not None else None
+    for pos, arg in enumerate(node.arguments):
         if isinstance(arg, N.Reference):
+            modified = True
+            if pure:
+                modified = pairs is not None and pairs[pos][0].interface.access != ArgumentInterface.Access.READ
             x, a, idx, _ = ref_target(arg, names)
-            acc.append(["rw", x, a])
-            acc += [["rd", i] for i in idx]
+            if modified:
+                acc.append(["rw", x, a])
+                acc += [["rd", i] for i in idx]
+            else:
+                acc.append(["rd", rexport_expr(arg, names, True)])
         else:
             acc += expr_acc(arg, names)
-    return ["opaque", acc, inline_bump(node, names) or ["skip"]]
+    return ["opaque", acc, inline_call(node, names) or ["skip"]]
 
 
 def assignment_with_codeblock(node, names):
@@ -460,6 +660,7 @@ class Parsed:
                     self.names.id(sym.name)
                     self.rank[sym.name.lower()] = rank_of(dt)
         self.names.rank = self.rank
+        self.names.src = src
         self.body = self.routine.children[n_init:]
 
     def routine_of(self, psyir):
@@ -600,8 +801,7 @@ def item_sexps(parsed, nodes):
     return items
 
 
-def executable_call(parsed, call):
-    return inline_bump(call, parsed.names) is not None
+
 
 
 def call_argument_vars(parsed, nodes):
@@ -633,7 +833,7 @@ def non_minif(nodes, names=None):
         for c in n.walk((CodeBlock, Call)):
             if isinstance(c, IntrinsicCall):
                 continue
-            if isinstance(c, CodeBlock) or names is None or inline_bump(c, names) is None:
+            if isinstance(c, CodeBlock) or names is None or inline_call(c, names) is None:
                 return True
     return False
 
@@ -682,6 +882,8 @@ def gfortran_replay(parsed, i, j, real_in, real_out, delta=1):
     """Run the program up to the region, (optionally) shift every non-input variable, run the
     region, print everything.  Returns a list of failures like c12.evaluate, or None if the
     oracle is not applicable (compile error / original run fails)."""
+    if "end program" not in parsed.src.lower():
+        return None                            # module-wrapped routine: executed by the model only
     head, stmts = fortran_pieces(parsed)
     k0 = parsed.n_init + i
     names = sorted(n for n in parsed.rank if parsed.rank[n] >= 0)
